@@ -125,7 +125,6 @@ Record st : Set := mkSt {
   s_pstat : list bool;
   s_mark : option (N * N * N);       (* local [ws_mark] of lex_macro_string_in_macro_eval_context *)
   s_perr : option err_info;          (* local [err_info] of dispatch_mode_str_expr *)
-  s_last_state : N * list mode;      (* debug builds only *)
   s_iters : N;
   s_aborted : bool;
   s_loop_detected : bool;
@@ -137,7 +136,7 @@ Record st : Set := mkSt {
 #[export] Instance eta_ghost : Settable _ := settable! mkGhost <g_line_debt; g_lines_ok; g_errs_at_cp; g_err_ok; g_errs_at_prep; g_rollbacks; g_max_modes>.
 #[export] Instance eta_st : Settable _ := settable! mkSt
   <s_src; s_srclen; s_cur; s_buf; s_ct_byte; s_ct_start; s_ct_line; s_modes; s_nmodes; s_errs; s_nerrs;
-   s_cp; s_mnl; s_pstat; s_mark; s_perr; s_last_state; s_iters; s_aborted; s_loop_detected; s_ghost>.
+   s_cp; s_mnl; s_pstat; s_mark; s_perr; s_iters; s_aborted; s_loop_detected; s_ghost>.
 
 (** ** Pure observations *)
 Definition NL : char := 10.
@@ -233,8 +232,8 @@ Inductive op : Type -> Type :=
 | OSetMnl (n : N) : op unit
 | OAssertDbg (f : st -> bool) (site : N) : op unit
 | OUnreachable (site : N) : op unit
-| OTick : op bool
-| OLoopDetect : op bool
+| OTick (limit : N) : op bool
+| OLoopDetect (last : N * list mode) : op (bool * (N * list mode))
 | OFinalEOF : op unit.
 
 Inductive res (A : Type) : Type :=
@@ -373,7 +372,7 @@ Definition wadd_signed32 (x : N) (dz : Z) : N :=
   Z.to_N ((Z.of_N x + dz) mod (Z.of_N two32)).
 
 Definition scrub (s : st) : st :=
-  s <| s_cur := (s_cur s) <| c_prev := 0 |> |> <| s_last_state := (0, []) |>.
+  s <| s_cur := (s_cur s) <| c_prev := 0 |> |>.
 
 Definition exec (d : bool) {A} (o : op A) (s : st) : res A :=
   match o in op T return res T with
@@ -593,19 +592,18 @@ Definition exec (d : bool) {A} (o : op A) (s : st) : res A :=
   | OSetMnl n => Done tt (s <| s_mnl := n |>)
   | OAssertDbg f site => if d && negb (f s) then Panic site s else Done tt s
   | OUnreachable site => Panic site s
-  | OTick =>
+  | OTick limit =>
     let i := s_iters s + 1 in
-    if 8 * s_srclen s + 64 <? i then Done true (s <| s_iters := i |> <| s_aborted := true |>)
+    if limit <? i then Done true (s <| s_iters := i |> <| s_aborted := true |>)
     else Done false (s <| s_iters := i |>)
-  | OLoopDetect =>
-    (* [last_state] exists only in debug builds; in the model it is also maintained (as a
-       ghost that nothing can observe) when [d] is off, so that the two profiles run on
-       identical states *)
+  | OLoopDetect last =>
+    (* [last_state] of the debug-only loop detector, threaded by the main loop; without
+       debug assertions the comparison is not made *)
     let ns := (c_rem (s_cur s), s_modes s) in
-    let fired := (fst (s_last_state s) =? fst ns) && modes_eqb (snd (s_last_state s)) (snd ns) in
+    let fired := (fst last =? fst ns) && modes_eqb (snd last) (snd ns) in
     if d && fired
-    then Done true ((emit_error s E_InternalErrorInfiniteLoop) <| s_loop_detected := true |>)
-    else Done false (s <| s_last_state := ns |>)
+    then Done (true, ns) ((emit_error s E_InternalErrorInfiniteLoop) <| s_loop_detected := true |>)
+    else Done (false, ns) s
   | OFinalEOF =>
     (* the tail of finalize_lexing: EOF token at the cursor on the last line *)
     let s := note_observe_lines s in
@@ -650,20 +648,35 @@ Notation "' pat <- p ;; q" := (bindP p (fun x => match x with pat => q end))
 (** ** Initial state ([Lexer::new]) and the detached buffer ([into_detached]) *)
 Definition init_ghost : ghost := mkGhost false true 0 true 0 0 1.
 
-Definition init (src : list char) : st :=
-  let n := blen src in
-  let '(rest_, off) := match src with c :: r => if c =? BOM then (r, 1) else (src, 0) | [] => (src, 0) end in
-  let rem := blen rest_ in
-  let byte := n - rem in
-  mkSt src n (mkCursor rest_ rem off (match src with c :: _ => if c =? BOM then BOM else EOF_CHAR | [] => EOF_CHAR end))
-       (mkWbuf [mkLine byte off] 1 [] 0 [] 0)
-       byte off 0
-       [MDefault] 1 [] 0 None 0 [false] None None (n, [MDefault]) 0 false false init_ghost.
+(** The model keeps every offset relative to the start of the text *after* an optional leading
+    byte-order mark; [into_detached] adds the mark's extent back.  (The Rust code works with
+    absolute offsets throughout; all its offset arithmetic is translation invariant, which is
+    what the C17 stream of the correspondence check exercises.)  [prev_char] starts as
+    [EOF_CHAR] also after a mark: the debug assertions that read it run only after a further
+    character has been consumed. *)
+Definition split_bom (src : list char) : (N * N) * list char :=
+  match src with
+  | c :: r => if c =? BOM then ((utf8_len c, 1), r) else ((0, 0), src)
+  | [] => ((0, 0), src)
+  end.
 
-Definition into_detached (s : st) : tbuf :=
+Definition init (text : list char) : st :=
+  let n := blen text in
+  mkSt text n (mkCursor text n 0 EOF_CHAR)
+       (mkWbuf [mkLine 0 0] 1 [] 0 [] 0)
+       0 0 0
+       [MDefault] 1 [] 0 None 0 [false] None None 0 false false init_ghost.
+
+Definition shift_tok (bb bc : N) (t : tok) : tok :=
+  mkTok (t_chan t) (t_type t) (t_byte t + bb) (t_start t + bc) (t_line t) (t_payload t).
+Definition shift_line (bb bc : N) (l : line_info) : line_info := mkLine (l_byte l + bb) (l_start l + bc).
+Definition shift_err (bb bc : N) (e : err_info) : err_info :=
+  mkErr (e_kind e) (e_byte e + bb) (e_char e + bc) (e_line e) (e_col e) (e_last e).
+
+Definition into_detached (bb bc : N) (s : st) : tbuf :=
   let b := s_buf s in
   let lines := match w_lines b with [] => [mkLine 0 0] | l => rev l end in
   let has_eof := match w_toks b with t :: _ => tt_eqb (t_type t) T_EOF | [] => false end in
   let toks := if has_eof then rev (w_toks b)
               else rev (mkTok CH_DEFAULT T_EOF (s_srclen s) (len (s_src s)) (len lines - 1) PNone :: w_toks b) in
-  mkTbuf lines toks (rev (w_lit b)).
+  mkTbuf (map (shift_line bb bc) lines) (map (shift_tok bb bc) toks) (rev (w_lit b)).
